@@ -243,8 +243,9 @@ class CallMixin:
             i = Int('cp!i')
             # fresh inner array B with a defining axiom (pattern-friendly; lambdas would poison E-matching)
             B = z3.Const(fresh_name('cpy!' + key + c), z3.ArraySort(I, srt))
-            body = Select(B, i) == If(And(i >= dst.base, i < dst.base + n), Select(Select(a, src.arr), i - dst.base + src.base), Select(Select(a, dst.arr), i))
-            st.assume(z3.ForAll([i], body, patterns=[Select(B, i)]))
+            # raw-index pattern; the source element is addressed through at() so that element patterns of hypotheses match
+            st.assume(z3.ForAll([i], Select(B, i) == If(And(i >= dst.base, i < dst.base + n), Select(Select(a, src.arr), self.at(src.base, i - dst.base)), Select(Select(a, dst.arr), i)),
+                                patterns=[Select(B, i)]))
             st.heap[key + c] = Store(a, dst.arr, B)
             st.writes.append((key + c, (dst.arr, None)))
 
